@@ -11,6 +11,8 @@ if grep -rnE 'Admitted|admit\.|^\s*Axiom |^\s*Parameter |^\s*Conjecture |Unset G
   echo "setup: forbidden construct in coq/" >&2; exit 2
 fi
 if [ $# -gt 0 ]; then PROPS="$*"; else PROPS=$(cat harness/released.txt); fi
+# the C17 check also runs the extracted C16 model (the re-use machine is compared with the matrix/right-hand side of C16)
+case " $PROPS " in *" C17 "*) case " $PROPS " in *" C16 "*) ;; *) PROPS="$PROPS C16" ;; esac ;; esac
 # source-derived model: coq/Gen/CombiSchemeGen.v is regenerated from $VERIF_REPO/sparseSpACE/combiScheme.py (default /repo)
 # at every run (written only when its content changes). A rejected source leaves a stub that does not compile, so
 # that everything depending on the generated model (Proofs/GenCombiSchemeEq.v, Props/C01.v) fails to build.
